@@ -2,6 +2,7 @@ import MimicProps.C13
 #print axioms MimicProps.C13.chain_known
 #print axioms MimicProps.C13.chain_complete
 #print axioms MimicProps.C13.query_args_pass_client_text
+#print axioms MimicProps.C13.chain_entered_through_next
 #print axioms MimicProps.C13.intercept_tests
 #print axioms MimicProps.C13.route_none_iff
 #print axioms MimicProps.C13.library_iff
